@@ -7,7 +7,10 @@ Alphabet == {"a", "n", " ", "\n", "'", "\"", "\\", "`"}
 VARIABLE t
 \* plus a few texts outside the alphabet: expressions that begin and end with a parenthesis
 LongLine(n) == [i \in 1..n |-> IF i % 10 = 0 THEN " " ELSE "x"]      \* one-line texts longer than any sensible line width
-Extra == { LongLine(45), LongLine(70), LongLine(90), LongLine(130), LongLine(260), <<"a", "\n", "\n", "\n", "a">>, <<"a", "\n", "\n", "\n", "\n", "n">>, <<"a", "\n", " ", "\n", "\n", "a">>, <<"(", "a", ")">>, <<"(", "a", ")", " ", "(", "n", ")">>, <<"(", "(", "a", ")", ")">>, <<"(", "a", ")", "n">>, <<"a", "(", ")">> }
+Extra == { LongLine(45), LongLine(70), LongLine(90), LongLine(130), LongLine(260), <<"a", "\n", "\n", "\n", "a">>, <<"a", "\n", "\n", "\n", "\n", "n">>, <<"a", "\n", " ", "\n", "\n", "a">>, <<"(", "a", ")">>, <<"(", "a", ")", " ", "(", "n", ")">>, <<"(", "(", "a", ")", ")">>, <<"(", "a", ")", "n">>, <<"a", "(", ")">>,
+           \* texts that mean something to a formatting or substitution routine
+           <<"{">>, <<"}">>, <<"{", "}">>, <<"{", "a", "}">>, <<"{", "{", "a", "}", "}">>, <<"{", "0", "}">>, <<"%", "s">>, <<"%">>, <<"%", "(", "a", ")", "s">>,
+           <<"$", "a">>, <<"\\", "1">>, <<"\\", "g", "<", "0", ">">>, <<"a", "{">>, <<"}", "a">> }
 \* layout family: texts as LINES, each an indentation of 0..3 blanks followed by nothing (a blank-only line), a word, or
 \* words with a trailing blank -- the shapes note normalisation (common indentation, blank-only lines) depends on and
 \* which short texts over the alphabet cannot reach (the smallest interesting one has 10 characters)
